@@ -720,10 +720,7 @@ func run(c *vf.Ctx) {
 
 	specs := systematic()
 	c.Extra("systematic_single_variation_cases", len(specs))
-	n := c.N(760, 9000)
-	if v := os.Getenv("C15_N"); v != "" { // development only
-		fmt.Sscanf(v, "%d", &n)
-	}
+	n := c.N(760, 6000)
 	for i := 0; len(specs) < n; i++ {
 		specs = append(specs, genText(c.Rand(uint64(i))))
 	}
